@@ -1960,11 +1960,51 @@ func r087(c *Ctx, r *R) {
 					break
 				}
 			}
-			if header == nil {
-				continue // decoded once
-			}
 			// the target: the last pointer-typed argument (or receiver for ProtoUnmarshal)
 			args := ci.Common().Args
+			if header == nil {
+				// decoded once per call: a helper that decodes into a
+				// record it is handed, called in a loop with the address
+				// of a variable that lives outside the loop
+				var prm *ssa.Parameter
+				for i := len(args) - 1; i >= 0 && prm == nil; i-- {
+					a := args[i]
+					if mi, ok := a.(*ssa.MakeInterface); ok {
+						a = mi.X
+					}
+					if q, ok := a.(*ssa.Parameter); ok && q.Parent() == f {
+						if _, isPtr := q.Type().Underlying().(*types.Pointer); isPtr {
+							prm = q
+						}
+					}
+				}
+				if prm == nil || f.Object() == nil || f.Object().Exported() {
+					continue
+				}
+				pi := -1
+				for i, q := range f.Params {
+					if q == prm {
+						pi = i
+					}
+				}
+				sites, _ := c.callSitesOf(f)
+				for _, s := range sites {
+					h := loopHeaderOf(s.Block())
+					if h == nil || pi >= len(s.Common().Args) {
+						continue
+					}
+					al, ok := stripLocal(s.Common().Args[pi]).(*ssa.Alloc)
+					if !ok {
+						continue
+					}
+					n++
+					g := s.Parent()
+					key := "fresh:" + strings.TrimPrefix(g.Pkg.Pkg.Path(), ModPath) + "." + g.Name()
+					inLoop := al.Block() == h || inNaturalLoop(al.Block(), h)
+					r.Check(inLoop, key, s.Pos(), "the decode target is allocated in the iteration that decodes into it", fmt.Sprintf("%s decodes (through %s) every message of the loop into the same variable %q (declared outside the loop): fields an input omits keep the previous message's values, and whatever keeps the address sees every later message", g.Name(), f.Name(), al.Comment))
+				}
+				continue
+			}
 			var target ssa.Value
 			for i := len(args) - 1; i >= 0; i-- {
 				a := args[i]
